@@ -32,6 +32,23 @@ def harnesses():
         add("scale_compact", "c16::scale_compact::<%d,%d,%d>" % (b, l, no), ["Encode for CompactRefUint (size_hint, encode)"],
             covers_required=(["big-integer-mode"] if b > 30 else []))
         add("der", "c16::der::<%d,%d,%d>" % (b, l, no), ["der::Encode::encode_to_slice", "EncodeValue::value_len"])
+        add("serde_binary", "c16::serde_binary::<%d,%d,%d,%d>" % (b, l, nb, nb + 1),
+            ["Serialize (binary form)", "Deserialize (binary visitor)"])
+        if b in (8, 16, 65):
+            for t, tn in enumerate(["bool", "int2", "int4", "int8", "oid", "money", "bytea", "bit", "varbit"]):
+                if b == 0 and tn == "bit":
+                    continue
+                add("pg_roundtrip_" + tn, "c16::pg_roundtrip::<%d,%d,%d>" % (b, l, t),
+                    ["ToSql::to_sql(%s)" % tn.upper(), "FromSql::from_sql(%s)" % tn.upper()], tier="thorough",
+                    timeout=3600, domain="FULL value; the round trip is asserted whenever to_sql succeeds",
+                    covers_required=["encodes"])
+    out.append(H("c16_primitive_types", "C16", "c16::primitive_types", unwind=40, tier="quick", timeout=1200,
+                 inst="U128, U256, B128, B256 <-> primitive_types::{U128, U256, H128, H256}", stubs=[FMT],
+                 domain="FULL values, one symbolic byte position", free_bits=128 + 256 + 5,
+                 fns=["From<primitive_types::U*> / From<Uint>", "From<H*> for Bits / From<Bits> for H*"]))
+    out.append(H("c16_bytemuck_pod", "C16", "c16::bytemuck_pod", unwind=20, tier="quick", timeout=1200,
+                 inst="Uint<128,2> (Pod), Uint<65,2> (Zeroable)", stubs=[FMT], domain="FULL value, one symbolic byte position",
+                 free_bits=132, fns=["bytemuck::Pod", "bytemuck::Zeroable"]))
     for b in [264, 512]:
         l = nlimbs(b)
         out.append(H("c16_scale_compact_hint_%d" % b, "C16", "c16::scale_compact_hint::<%d,%d>" % (b, l), unwind=l + 3,
